@@ -12,15 +12,25 @@ func (rt *runtime) newErrorObject(name string, message Value, stackFramesToPop i
 
 	obj.defineOwnProperty("stack", property{
 		value: propertyGetSet{
-			rt.newNativeFunction("get", "internal", 0, func(FunctionCall) Value {
-				return stringValue(obj.value.(ottoError).formatWithStack())
-			}),
+			rt.newNativeFunction("get", "internal", 0, errorStackGetter),
 			&nilGetSetObject,
 		},
 		mode: modeConfigureMask & modeOnMask,
 	}, false)
 
 	return obj
+}
+
+// errorStackGetter is the getter of the "stack" property of Error objects. The
+// error is found through the receiver (or its prototype chain), not through a
+// closure, so that it keeps working on the objects of a cloned runtime.
+func errorStackGetter(fc FunctionCall) Value {
+	for obj := fc.This.object(); obj != nil; obj = obj.prototype {
+		if err, ok := obj.value.(ottoError); ok {
+			return stringValue(err.formatWithStack())
+		}
+	}
+	return Value{}
 }
 
 func (rt *runtime) newErrorObjectError(err ottoError) *object {
@@ -46,9 +56,7 @@ func (rt *runtime) newErrorObjectError(err ottoError) *object {
 
 	obj.defineOwnProperty("stack", property{
 		value: propertyGetSet{
-			rt.newNativeFunction("get", "internal", 0, func(FunctionCall) Value {
-				return stringValue(obj.value.(ottoError).formatWithStack())
-			}),
+			rt.newNativeFunction("get", "internal", 0, errorStackGetter),
 			&nilGetSetObject,
 		},
 		mode: modeConfigureMask & modeOnMask,
